@@ -78,7 +78,8 @@ def cargo_kani(crate_dir, harness, flags=(), timeout=1800, playback=False, targe
     if v.group(1) == 'SUCCESSFUL':
         res['status'] = 'SUCCESSFUL'
         return res
-    failed = [(name, d, loc) for (_, name, st, d, loc) in checks if st == 'FAILURE']
+    failed = [(name, d, loc) for (_, name, st, d, loc) in checks if st == 'FAILURE' and 'unwinding assertion' not in d]
+    res['unwinding_failures'] = sum(1 for (_, name, st, d, loc) in checks if st == 'FAILURE' and 'unwinding assertion' in d)
     if not failed or 'CBMC failed' in text or 'out of memory' in text.lower():
         # killed / OOM / internal error: undecided, never a violation
         res['status'] = 'ERROR'
@@ -143,9 +144,12 @@ def run_playback_tests(crate_dir, tests, timeout=1800):
     if not target:
         return
     s = open(target).read()
-    idx = s.rstrip().rfind('}')
+    from rustcut import code_mask, match_brace
+    mo = s.index('mod verif_kani {') + len('mod verif_kani')
+    mo = s.index('{', mo)
+    idx = match_brace(s, code_mask(s), mo)
     add = '\n'.join(t['test_source'] for t in tests if t['test_name'] not in s)
-    open(target, 'w').write(s[:idx] + add + '\n}\n')
+    open(target, 'w').write(s[:idx] + add + '\n' + s[idx:])
     for t in tests:
         rc, out, err, wall = run(['cargo', 'kani', 'playback', '-Z', 'concrete-playback', '--', t['test_name']], cwd=crate_dir, timeout=timeout)
         text = (out or '') + (err or '')
